@@ -26,6 +26,18 @@ pub proof fn lemma_origin_reward(c: IMap<CoinID, CoinDataHeight>, h: BlockHeight
     assert forall|tx2: Transaction, i2: int| 0 <= i2 < tx2.outputs@.len() && i2 <= 255 && c2.contains_key(#[trigger] cid(tx2, i2))
         implies c2[cid(tx2, i2)].coin_data.covhash == tx2.outputs@[i2].covhash by { assert(cid(tx2, i2) != spec_proposer_reward(h)); }
 }
+/// the pre-978392 deposit rule ("OLD RULES" branch of process_deposits_for_single_pool) applies
+pub open spec fn deposit_legacy(network: NetID, height: BlockHeight) -> bool { (network == NetID::Mainnet || network == NetID::Testnet) && height.0 < 978392 }
+/// state invariant: whatever sits under a marker id is locked by the all-zero covenant hash (markers are the only coins ever written there: A-HASH domain separation)
+pub open spec fn markers_ok(c: IMap<CoinID, CoinDataHeight>) -> bool { forall|h: TxHash| c.contains_key(#[trigger] spec_marker(h)) ==> c[spec_marker(h)].coin_data.covhash == Address(spec_zero_hash()) }
+/// C19: every faucet marker of c0 is still in c1, unchanged
+pub open spec fn markers_kept(c0: IMap<CoinID, CoinDataHeight>, c1: IMap<CoinID, CoinDataHeight>) -> bool {
+    forall|h: TxHash| c0.contains_key(#[trigger] spec_marker(h)) ==> c1.contains_key(spec_marker(h)) && c1[spec_marker(h)] == c0[spec_marker(h)]
+}
+/// A-HASH: a faucet marker's keyed hash is never the all-zero value (the id of the genesis coin)
+pub broadcast axiom fn axiom_marker_nonzero(x: TxHash) ensures #[trigger] spec_fdp_hash(x) != spec_zero_hash();
+/// A-HASH domain separation: the proposer-reward pseudo-id of a height is never a faucet marker id
+pub broadcast axiom fn axiom_reward_not_marker(h: BlockHeight, x: TxHash) ensures #[trigger] spec_reward_hash(h) != #[trigger] spec_fdp_hash(x);
 pub broadcast axiom fn axiom_marker_inj(a: TxHash, b: TxHash) requires #[trigger] spec_fdp_hash(a) == #[trigger] spec_fdp_hash(b) ensures a == b;
 
 // ---- exact coin-set transition of a batch (C02)
@@ -327,6 +339,7 @@ pub open spec fn created_item_ok(tx: Transaction, height: BlockHeight, i: int, o
     match o { Some(p) => tx.outputs@[i].covhash != spec_coin_destroy() && p.0 == cid(tx, i) && is_created_cdh(tx, i, height, p.1),
               None => tx.outputs@[i].covhash == spec_coin_destroy() }
 }
+#[verifier::spinoff_prover] #[verifier::rlimit(60)]
 pub proof fn lemma_created_from_pairs(tx: Transaction, height: BlockHeight, opts: Seq<Option<(CoinID, CoinDataHeight)>>)
     requires opts.len() == tx.outputs@.len(), tx.outputs@.len() <= 255,
              forall|i: int| 0 <= i < opts.len() ==> created_item_ok(tx, height, i, #[trigger] opts[i])
